@@ -153,29 +153,31 @@ LimitsSoundFor(d, L, F, accepted) == Exceeds(d, L, F) => ~accepted
 
 \* ---------------------------------------------------------------- the implementation's token accounting (model)
 \* astparser/tokenizer.go TokenizeWithLimits sees spellings only: LBRACE, RBRACE, SPREAD, IDENT (and DOLLAR IDENT for a
-\* variable); every other token is ignored.  fixed = the proposed repair: (1) query/mutation/subscription/fragment
-\* start a definition only at brace level 0, otherwise they are counted like any identifier; (2) a `{` at brace level 0
-\* (shorthand operation) also closes the previous definition's depth accounting.
+\* variable); every other token is ignored.  fixed = the repair (fixes/C05-1): (1) query/mutation/subscription/fragment
+\* start a definition only at brace level 0, otherwise they are counted like any identifier; (2) once a fragment
+\* definition has been seen (sf) a `{` at brace level 0 (shorthand operation) also closes the previous definition's
+\* depth accounting.  fixed = FALSE is the code as it was pinned.
 AllNames == PlainNames \cup SoftKeywords \cup {"z", "x", "skip", "include", "d", "Q", "F", "G", "T", "Int", "v", "w", "E", "RED", "k"}
 VarSpellings == {"$" \o v : v \in AllNames}
 Lx(s) == IF s = "{" THEN "lbrace" ELSE IF s = "}" THEN "rbrace" ELSE IF s = "..." THEN "spread"
          ELSE IF s \in AllNames THEN "ident" ELSE IF s \in VarSpellings THEN "var" ELSE "other"
 IdentOf(s) == IF Lx(s) = "var" THEN CHOOSE v \in AllNames : "$" \o v = s ELSE s
 
-ImplInit == [g |-> 0, l |-> 0, p |-> 0, f |-> 0, sp |-> FALSE, gmax |-> 0]
+ImplInit == [g |-> 0, l |-> 0, p |-> 0, f |-> 0, sp |-> FALSE, gmax |-> 0, sf |-> FALSE]
 ImplStep(a, s, fixed) ==
   LET k == Lx(s) IN
   IF k = "lbrace" THEN
-    LET g0 == IF fixed /\ a.l <= 0 THEN a.g + a.p ELSE a.g
-        p0 == IF fixed /\ a.l <= 0 THEN 0 ELSE a.p
-        l0 == IF fixed /\ a.l <= 0 THEN 0 ELSE a.l
+    LET close == fixed /\ a.sf /\ a.l <= 0
+        g0 == IF close THEN a.g + a.p ELSE a.g
+        p0 == IF close THEN 0 ELSE a.p
+        l0 == IF close THEN 0 ELSE a.l
     IN [a EXCEPT !.g = g0 + 1, !.l = l0 + 1, !.p = IF l0 + 1 > p0 THEN l0 + 1 ELSE p0, !.sp = FALSE,
                  !.gmax = IF g0 + 1 > a.gmax THEN g0 + 1 ELSE a.gmax]
   ELSE IF k = "rbrace" THEN [a EXCEPT !.g = a.g - 1, !.l = a.l - 1, !.sp = FALSE]
   ELSE IF k = "spread" THEN [a EXCEPT !.sp = TRUE]
   ELSE IF k \in {"ident", "var"} THEN
     IF IdentOf(s) \in OpKeywords /\ (~fixed \/ a.l <= 0)
-    THEN [a EXCEPT !.g = a.g + a.p, !.l = 0, !.p = 0, !.sp = FALSE]
+    THEN [a EXCEPT !.g = a.g + a.p, !.l = 0, !.p = 0, !.sp = FALSE, !.sf = a.sf \/ IdentOf(s) = "fragment"]
     ELSE [a EXCEPT !.f = IF a.l > 0 /\ ~a.sp THEN a.f + 1 ELSE a.f, !.sp = FALSE]
   ELSE a
 RECURSIVE ImplRun(_, _, _)
